@@ -138,6 +138,77 @@ def c18b(db, res):
                 else:
                     res.violated('C18.b', key, '%s frees %s and can return (error path) with the field still pointing at the freed block: the destructor of the owning object frees or dereferences it again' % (name, Pk), c['loc'], exit_at=dang[0].get('loc'))
     res.floor('C18.b', 'free sites on long-lived fields / out-parameters', nsites, 25)
+    # ---- aliases: free(V) of a local that shares its value with a long-lived field
+    nal = 0
+    for name, f in sorted(db.fn.items()):
+        if not f.blocks:
+            continue
+        for b, i, st in f.stmts():
+            for c in nodes(st, lambda y: y.get('k') == 'call' and y.get('callee') and FREEISH(y['callee']) and y['args']):
+                a = strip(c['args'][0])
+                if a.get('k') != 'var' or a.get('decl') != 'local':
+                    continue
+                V = a['name']
+                # alias-creating statements: M = V  or  V = M   (M a field reached from a parameter, record long-lived)
+                cands = []
+                for bb, ii, s2 in f.stmts():
+                    for x in nodes(s2, lambda y: y.get('k') in ('assign', 'decl')):
+                        pairs = [(x['l'], x['r'])] if x['k'] == 'assign' and x['op'] == '=' else [({'k': 'var', 'name': v['name'], 'decl': 'local'}, v['init']) for v in x.get('vars', []) if 'init' in v]
+                        for l, r in pairs:
+                            l0, r0 = strip(l), strip(r)
+                            if l0 is None or r0 is None:
+                                continue
+                            for m, v in ((l0, r0), (r0, l0)):
+                                if m.get('k') == 'member' and m.get('rec') in LONG and v.get('k') == 'var' and v.get('name') == V:
+                                    rt = root_of(m)
+                                    if rt is not None and rt.get('k') == 'var' and rt.get('decl') == 'param':
+                                        cands.append((bb, ii, m))
+                for bb, ii, m in cands:
+                    Mk = P.K(m)
+                    # does the alias survive until the free?
+                    hit = [False]
+
+                    def visit(b2, i2, s3, Mk=Mk, V=V):
+                        if (b2, i2) == (b, i):
+                            hit[0] = True
+                            return True
+                        if any(P.K(x['l']) in (Mk, V) for x in nodes(s3, lambda y: y.get('k') == 'assign')) and (b2, i2) != (bb, ii):
+                            return True
+                        return False
+                    if (bb, ii) == (b, i):
+                        continue
+                    C.forward(f, (bb, ii), visit)
+                    if not hit[0]:
+                        continue
+                    nal += 1
+                    owners = set()
+                    e = m
+                    while e is not None and e.get('k') in ('member', 'index'):
+                        e = strip(e['base'])
+                        if e is not None:
+                            owners.add(P.K(e))
+                    dang = [None]
+
+                    def visit2(b2, i2, s3, Mk=Mk):
+                        if any(P.K(x['l']) == Mk or P.K(x['l']) in owners for x in nodes(s3, lambda y: y.get('k') == 'assign')):
+                            return True
+                        if any(P.K(c2['args'][0]) in owners for c2 in nodes(s3, lambda y: y.get('k') == 'call' and y.get('callee') and FREEISH(y['callee']) and y['args'])):
+                            return True
+                        if s3.get('k') == 'return':
+                            dang[0] = s3
+                            return True
+                        return False
+                    ends, ex = C.forward(f, (b, i), visit2)
+                    if ex and dang[0] is None:
+                        dang[0] = {'loc': f.end or f.loc}
+                    key = '%s:free(%s)-aliases-%s' % (name, V, Mk)
+                    if dang[0] is None:
+                        res.holds('C18.b', key, 'the field is reassigned (or its owner released) after the free', c['loc'])
+                    elif callers_release_owner(db, f, m):
+                        res.holds('C18.b', key, 'owner released by every caller', c['loc'])
+                    else:
+                        res.violated('C18.b', key, '%s frees %s while %s still holds the same pointer and can return without clearing it: the field dangles (use-after-free / double free when it is next read or destroyed)' % (name, V, Mk), c['loc'], exit_at=dang[0].get('loc'))
+    res.analysed['C18.b local/field alias pairs reaching a free'] = nal
 
 
 def callers_release_owner(db, f, a):
